@@ -47,6 +47,12 @@ CHECKS["C13"] = ("exploration", "triple-set reference model checked after every 
 CHECKS["C19"] = ("exploration", "algorithm result validators: brute-force oracles, definitional re-checks and cross-algorithm agreement on generated multigraphs, failures shrunk to feature-class signatures",
   "Every bundled algorithm (shortest paths incl. A*, Bellman-Ford, Floyd-Warshall; traversals; components; topological sort; MST; max flow / min-cost flow; articulation points, bridges, k-core; centralities; clustering; community sanity) is run on 15 fixed witness graphs, on all digraphs with self-loops on <= 3 (quick) / <= 4 (thorough) nodes and on thousands of random multigraphs (self-loops, parallel/antiparallel edges, isolated nodes, disconnected parts, zero/equal/missing/negative weights), for every source/target, and each result is validated against its specification by brute force.",
   "Graphs <= 9 nodes / 24 edges; where an algorithm's documentation is silent any consistent reading is accepted (listed in the evidence assumptions).", "DESIGN.md §4 C19")
+CHECKS["C08"] = ("exploration", "differential query runner in four languages against an independent reference evaluator (specification + one named deviation rule per open finding), cross-language comparison, shrinking to skeleton signatures",
+  "Random graphs (0-40 nodes, plus strata crossing the 2048-row chunk size) and random queries from the shared core grammar are rendered to GQL, Cypher, Gremlin and GraphQL, executed by the real engine and compared with a reference evaluator over the model graph (all bindings, three-valued WHERE, projection, DISTINCT, ORDER BY, SKIP/LIMIT, grouping and aggregates). An observation must equal the specification or exactly what the open findings predict; anything else is shrunk and reported.",
+  "Only the generated core grammar; order among ties / null placement / mixed-kind ordering are compared modulo that freedom; cases tainted by three non-emulable defects are counted, not judged, and pinned by directed cells.", "DESIGN.md §4 C08")
+CHECKS["C11"] = ("exploration", "metamorphic relation checker (three-way predicate partition, count, distinct, ordered window, union all) over generated queries in every language that can express the relation",
+  "For random base queries and predicates on random graphs (incl. results crossing 2048 rows) the relations rows(Q) = rows(Q and p) + rows(Q and not p) + rows(Q and p is null), count = number of rows, DISTINCT = set of rows, SKIP s LIMIT n = rows[s..s+n] of the ordered result, UNION ALL = concatenation are evaluated on the engine's own answers; a failing relation is attributed to an open finding only if the finding's deviation rule predicts every component answer.",
+  "No reference evaluator decides the verdict; skip/limit values from a fixed boundary list; languages limited to what each front end accepts.", "DESIGN.md §4 C11")
 NOT_YET = {}
 
 def main():
